@@ -595,6 +595,12 @@ def read_submod_def(line: str):
     name: str = ""
     trailing_line = line[submod_match.end(0) :].split("!")[0]
     trailing_line = trailing_line.strip()
+    # SUBMODULE (ancestor:parent) name -- the direct parent is the one named last
+    names_match = FRegex.SUBMOD_NAMES.match(trailing_line)
+    if names_match:
+        parent_name = (names_match.group(2) or names_match.group(1)).lower()
+        name = (names_match.group(3) or "").lower()
+        return "smod", SmodInfo(name, parent_name)
     parent_match = FRegex.WORD.match(trailing_line)
     if parent_match:
         parent_name = parent_match.group(0).lower()
